@@ -5,6 +5,8 @@ package main
 // op C14.run, input:   <cmd> # <flagspec> # <tree>
 //   cmd       check | balance | print | format | infer | transcode | weights | returns
 //   flagspec  "raw <hex> <hex> ..."   argv elements between the command words and the root file (hex, "-" = empty string)
+//             "flg <hex> <hex> ..."   the same, in the flag family: the exit class is predicted from Model/Flags.v and
+//                                     Model/CliFlags.v (the raw files of the tree are read with the model's parser)
 //             "pred"                  no flags; the case lies inside the modelled space (check, print)
 //             "bal <BalCfg.Enc()>"    balance flags of the modelled space (BalCfg.Args())
 //             "tc val=<V or ->"       transcode [-v V]  (modelled space: Model/CliTranscode.v)
@@ -179,9 +181,9 @@ func (c c14Case) argv(dir string) []string {
 		a = pc.weightsArgs(dir, false, pc.From)
 	case strings.HasPrefix(c.Flags, "pfr "):
 		a = DecodePfCfg(strings.TrimPrefix(c.Flags, "pfr ")).returnsArgs()
-	case strings.HasPrefix(c.Flags, "raw"):
+	case strings.HasPrefix(c.Flags, "raw"), strings.HasPrefix(c.Flags, "flg"):
 		a = append(a, c14CmdWords[c.Cmd]...)
-		for _, h := range strings.Fields(strings.TrimPrefix(c.Flags, "raw")) {
+		for _, h := range strings.Fields(c.Flags[3:]) {
 			a = append(a, unhx(h))
 		}
 	default:
@@ -870,7 +872,7 @@ func genC14(out *caseWriter, seed uint64, n int, args []string) error {
 			if r.chance(3) {
 				fl = append(fl, "extra-positional.knut")
 			}
-			c.Flags = rawFlags(fl...)
+			c.Flags = "flg" + strings.TrimPrefix(rawFlags(fl...), "raw")
 			if r.chance(2) {
 				c.Tree = nil // the root file does not exist
 			}
